@@ -367,6 +367,7 @@ int main(int argc, char **argv)
 	const double t0 = now_s();
 	bool have_fail = false;
 	long after_fail = 0;
+	long total_timeouts = 0;
 	std::vector<uint8_t> fail_tape;
 	rsv_result fail_res;
 	memset(&fail_res, 0, sizeof fail_res);
@@ -385,11 +386,14 @@ int main(int argc, char **argv)
 			return;
 		if(have_fail && ++after_fail > g_shrink_budget)
 			return;
+		if(total_timeouts >= 3)
+			return; // cases that run into the wall-clock limit are too expensive to keep generating or shrinking
 		std::vector<int> ti = *tapeGen;
 		std::vector<uint8_t> tape(ti.begin(), ti.end());
 		rsv_result res;
 		bool crashed, timedout;
 		run_case(tape, res, crashed, timedout);
+		total_timeouts += timedout;
 		if(!have_fail) { // statistics describe the generated campaign, not the shrink attempts
 			S.evaluations++;
 			S.tape_bytes += tape.size();
